@@ -392,7 +392,25 @@ func cmdCheck(args []string) int {
 				totalViol++
 				replayPath := writeReplay(id, g, n, v, *tier == "thorough")
 				status := "unreplayed"
-				if !*noReplay {
+				schedDep := false
+				for _, d := range v.Path {
+					if d.IsSched() {
+						schedDep = true
+					}
+				}
+				if schedDep {
+					// A counterexample that depends on a goroutine schedule cannot be forced on
+					// the native runtime; it is confirmed by deterministic re-execution of its
+					// decision vector (inputs + schedule) on the real SSA.
+					kind, vs := eng.ReplayPath(cfg, v.Path)
+					status = "spurious: re-execution ended " + kind
+					for _, rv := range vs {
+						if rv.Label == v.Label {
+							status = "reproduced: schedule-dependent, confirmed by re-execution of the decision vector"
+						}
+					}
+					replays++
+				} else if !*noReplay {
 					status = nativeReplay(workDir, g, pkgName, names, n, replayPath, extra)
 					replays++
 				}
@@ -500,7 +518,7 @@ func writeReplay(id string, g Group, harness string, v *interp.Violation, thorou
 	var ps []string
 	for _, d := range v.Path {
 		ps = append(ps, d.String())
-		if d.Kind == 1 {
+		if d.IsChoice() {
 			rf.Choices = append(rf.Choices, int(d.Val))
 		}
 	}
